@@ -845,6 +845,140 @@ theorem decInt_python (s m r : Str) (h : matchDecInt s = some (m, r)) :
       · cases h
   · cases h
 
+-- floats: the scanner against `floatnumber` --------------------------------------------------------------------
+
+theorem star_append {a : G} {s t : Str} (hs : Derives (.star a) s) (ht : Derives (.star a) t) :
+    Derives (.star a) (s ++ t) := by
+  generalize hg : G.star a = g at hs
+  induction hs with
+  | eps => cases hg
+  | cls _ => cases hg
+  | seq _ _ => cases hg
+  | altL _ => cases hg
+  | altR _ => cases hg
+  | starNil => cases hg; simpa using ht
+  | @starCons a' s1 t1 h1 h2 _ ih2 =>
+    cases hg
+    rw [List.append_assoc]
+    exact Derives.starCons h1 (ih2 rfl)
+
+theorem digits_star : ∀ (D : Str), (∀ x ∈ D, isDigit x = true) → Derives (.star (itemG JinjaV.Spec.PyLit.isDigitC)) D
+  | [], _ => .starNil
+  | c :: r, h => Derives.starCons (s := [c]) (item_plain (h c (by simp))) (digits_star r (fun x hx => h x (by simp [hx])))
+
+theorem takeWhile_all (p : Char → Bool) : ∀ (s : Str), ∀ x ∈ s.takeWhile p, p x = true
+  | [], x, hx => by simp at hx
+  | c :: r, x, hx => by
+    by_cases hc : p c = true
+    · simp only [List.takeWhile_cons, hc, if_true, List.mem_cons] at hx
+      rcases hx with rfl | hx
+      · exact hc
+      · exact takeWhile_all p r x hx
+    · simp [List.takeWhile_cons, hc] at hx
+
+/-- the digit run is empty or starts with a digit and continues with `(["_"] digit)*` -/
+theorem digitRunF_shape : ∀ (n : Nat) (s : Str), (digitRunF n s).1 = [] ∨
+    ∃ c t, (digitRunF n s).1 = c :: t ∧ isDigit c = true ∧ Derives (.star (itemG JinjaV.Spec.PyLit.isDigitC)) t
+  | 0, s => Or.inl rfl
+  | n + 1, s => by
+    have hall : ∀ x ∈ s.takeWhile isDigit, isDigit x = true := takeWhile_all isDigit s
+    simp only [digitRunF]
+    split
+    · exact Or.inl rfl
+    · rename_i hne
+      right
+      cases hD : s.takeWhile isDigit with
+      | nil => simp [hD] at hne
+      | cons c D' =>
+        rw [hD] at hall
+        have hc := hall c (by simp)
+        have hD' := digits_star D' (fun x hx => hall x (by simp [hx]))
+        split
+        · rename_i r2 _
+          split
+          · exact ⟨c, D', rfl, hc, hD'⟩
+          · rename_i hne2
+            rcases digitRunF_shape n r2 with h | ⟨c', t', h, hc', ht'⟩
+            · simp [h] at hne2
+            · refine ⟨c, D' ++ '_' :: c' :: t', by simp [h], hc, ?_⟩
+              exact star_append hD' (Derives.starCons (s := ['_', c']) (item_under hc') ht')
+        · exact ⟨c, D', rfl, hc, hD'⟩
+
+theorem digitRun_part (s : Str) (h : (digitRun s).1.isEmpty = false) :
+    Derives JinjaV.Spec.PyLit.digitpart (digitRun s).1 := by
+  rcases digitRunF_shape s.length s with h0 | ⟨c, t, hd, hc, ht⟩
+  · simp [digitRun, h0] at h
+  · unfold digitRun
+    rw [hd]
+    exact Derives.seq (s := [c]) (.cls hc) ht
+
+theorem matchFrac_derives (s : Str) (f : Str × Str) (h : matchFrac s = some f) :
+    Derives JinjaV.Spec.PyLit.fraction f.1 := by
+  unfold matchFrac at h
+  split at h
+  · rename_i r2
+    split at h
+    · cases h
+    · rename_i hne
+      cases h
+      exact Derives.seq (s := ['.']) (.cls (by simp)) (digitRun_part r2 (by simpa using hne))
+  · cases h
+
+theorem takeExpSign_derives (r : Str) :
+    Derives (G.opt (.alt (G.lit '+') (G.lit '-'))) (takeExpSign r).1 := by
+  unfold takeExpSign
+  split
+  · exact .altL (.altL (.cls (by simp)))
+  · exact .altL (.altR (.cls (by simp)))
+  · exact .altR .eps
+
+theorem matchExpo_derives (s : Str) (x : Str × Str) (h : matchExpo s = some x) :
+    Derives JinjaV.Spec.PyLit.exponent x.1 := by
+  unfold matchExpo at h
+  split at h
+  · rename_i e r2
+    split at h
+    · rename_i he
+      split at h
+      · cases h
+      · rename_i hne
+        cases h
+        have hed : Derives (.alt (G.lit 'e') (G.lit 'E')) [e] := by
+          simp only [isE, Bool.or_eq_true, beq_iff_eq] at he
+          rcases he with rfl | rfl
+          · exact .altL (.cls (by simp))
+          · exact .altR (.cls (by simp))
+        exact Derives.seq (s := [e]) hed
+          (Derives.seq (takeExpSign_derives r2) (digitRun_part _ (by simpa using hne)))
+    · cases h
+  · cases h
+
+theorem matchFloat_derives (prev : Option Char) (s m r : Str) (h : matchFloat prev s = some (m, r)) :
+    Derives JinjaV.Spec.PyLit.floatnumber m := by
+  unfold matchFloat at h
+  split at h
+  · cases h
+  · split at h
+    · cases h
+    · rename_i hip
+      have hipd := digitRun_part s (by simpa using hip)
+      split at h
+      · rename_i f hf
+        have hfd := matchFrac_derives _ f hf
+        split at h
+        · rename_i x hx
+          have hxd := matchExpo_derives _ x hx
+          cases h
+          exact .altR (Derives.seq (.altR (.altL (Derives.seq (.altL hipd) hfd))) hxd)
+        · cases h
+          exact .altL (.altL (Derives.seq (.altL hipd) hfd))
+      · split at h
+        · rename_i x hx
+          have hxd := matchExpo_derives _ x hx
+          cases h
+          exact .altR (Derives.seq (.altL hipd) hxd)
+        · cases h
+
 end numbers
 
 end JinjaV.Literal
